@@ -199,6 +199,9 @@ func (p *pkgInfo) emitFacts(o *out) {
 		}
 	}
 	var touching, unlocked []string
+	holdsLock := map[string]bool{}     // starts with mu.Lock(); defer mu.Unlock()
+	touchesShared := map[string]bool{} // reads or writes a shared field through the receiver
+	callers := map[string][]string{}   // memoizer method -> functions that call it
 	iterCallers := map[string]bool{}
 	goStmts := []string{}
 	condWaitOutsideLoop := []string{}
@@ -242,19 +245,51 @@ func (p *pkgInfo) emitFacts(o *out) {
 				return true
 			})
 		}
+		if isMemo && len(fd.Body.List) >= 2 {
+			a := p.src(fd.Body.List[0])
+			b := p.src(fd.Body.List[1])
+			if a == recv+"."+muName+".Lock()" && b == "defer "+recv+"."+muName+".Unlock()" {
+				holdsLock[k] = true
+			}
+		}
 		if touches {
 			touching = append(touching, k)
-			ok := false
-			if len(fd.Body.List) >= 2 {
-				a := p.src(fd.Body.List[0])
-				b := p.src(fd.Body.List[1])
-				if a == recv+"."+muName+".Lock()" && b == "defer "+recv+"."+muName+".Unlock()" {
-					ok = true
+			touchesShared[k] = true
+		}
+		// calls of memoizer methods through the receiver: the call graph inside the monitor
+		if isMemo {
+			ast.Inspect(fd.Body, func(n ast.Node) bool {
+				if c, ok := n.(*ast.CallExpr); ok {
+					if s, ok := c.Fun.(*ast.SelectorExpr); ok {
+						if id, ok := s.X.(*ast.Ident); ok && id.Name == recv {
+							if _, isMethod := p.funcs["memoizer."+s.Sel.Name]; isMethod {
+								callers["memoizer."+s.Sel.Name] = append(callers["memoizer."+s.Sel.Name], k)
+							}
+						}
+					}
 				}
-			}
-			if !ok {
-				unlocked = append(unlocked, k)
-			}
+				return true
+			})
+		} else {
+			// any other function calling a memoizer method on some value: an outside entry
+			// (the call of a go statement starts a goroutine, it is not a call by this function)
+			goCalls := map[*ast.CallExpr]bool{}
+			ast.Inspect(fd.Body, func(n ast.Node) bool {
+				if g, ok := n.(*ast.GoStmt); ok {
+					goCalls[g.Call] = true
+				}
+				return true
+			})
+			ast.Inspect(fd.Body, func(n ast.Node) bool {
+				if c, ok := n.(*ast.CallExpr); ok && !goCalls[c] {
+					if s, ok := c.Fun.(*ast.SelectorExpr); ok {
+						if _, isMethod := p.funcs["memoizer."+s.Sel.Name]; isMethod {
+							callers["memoizer."+s.Sel.Name] = append(callers["memoizer."+s.Sel.Name], k)
+						}
+					}
+				}
+				return true
+			})
 		}
 		// Cond.Wait only as the sole statement of a for-loop body
 		if isMemo {
@@ -278,6 +313,65 @@ func (p *pkgInfo) emitFacts(o *out) {
 			walk(fd.Body, false)
 		}
 	}
+	// a function touching shared state is safe if it holds the mutex itself, or if it is an
+	// unexported memoizer method every call of which comes from a safe function that holds it
+	// (a helper "called with mu held"); greatest fixed point over the call graph
+	safe := map[string]bool{}
+	for k := range touchesShared {
+		safe[k] = true
+	}
+	for changed := true; changed; {
+		changed = false
+		for k := range touchesShared {
+			if !safe[k] || holdsLock[k] {
+				continue
+			}
+			name := strings.TrimPrefix(k, "memoizer.")
+			ok := len(callers[k]) > 0 && !ast.IsExported(name)
+			for _, c := range callers[k] {
+				if !(holdsLock[c] || (touchesShared[c] && safe[c])) || !strings.HasPrefix(c, "memoizer.") {
+					ok = false
+				}
+			}
+			if !ok {
+				safe[k] = false
+				changed = true
+			}
+		}
+	}
+	for k := range touchesShared {
+		if !safe[k] {
+			unlocked = append(unlocked, k)
+		}
+	}
+	// the digit source may be called only by code that runs in the single producer goroutine:
+	// `run` itself, or methods all of whose callers are such code (and `run` is never called directly)
+	producerOnly := map[string]bool{"memoizer.run": true}
+	var inProducer func(k string, depth int) bool
+	inProducer = func(k string, depth int) bool {
+		if producerOnly[k] {
+			return true
+		}
+		if depth > 8 || len(callers[k]) == 0 {
+			return false
+		}
+		for _, c := range callers[k] {
+			if !inProducer(c, depth+1) {
+				return false
+			}
+		}
+		return true
+	}
+	var iterOutside []string
+	for k := range iterCallers {
+		if !inProducer(k, 0) {
+			iterOutside = append(iterOutside, k)
+		}
+	}
+	for _, c := range callers["memoizer.run"] {
+		iterOutside = append(iterOutside, c+" (calls run directly)")
+	}
+	sort.Strings(iterOutside)
 	sort.Strings(touching)
 	sort.Strings(unlocked)
 	var ic []string
@@ -288,6 +382,7 @@ func (p *pkgInfo) emitFacts(o *out) {
 	o.line("def sharedStateTouchedBy : List String := %s", leanStrList(touching))
 	o.line("def sharedStateTouchedWithoutLock : List String := %s", leanStrList(unlocked))
 	o.line("def iterCalledBy : List String := %s", leanStrList(ic))
+	o.line("def iterCalledOutsideProducer : List String := %s", leanStrList(iterOutside))
 	o.line("def goStatements : List String := %s", leanStrList(goStmts))
 	o.line("def condWaitOutsideLoop : List String := %s", leanStrList(condWaitOutsideLoop))
 
